@@ -87,6 +87,10 @@ def report(c, res, deaths, items):
 def run(c):
     c.build_worker()
     tier = "q" if c.quick else "t"
+    # design-level "never loops": the hash procedure comes to an end on every layout of the quick-tier space
+    live = 'CONSTANTS\n  Tier = "q"\n  PBits = {32, 64}\n  PLf = {%s}\nSPECIFICATION LiveSpec\nPROPERTY Terminates\nCHECK_DEADLOCK FALSE\n' % ", ".join(map(str, LFS["q"]))
+    c.tlc("MC_Pe", "live.cfg", files={"live.cfg": live}, name="liveness", timeout=1800)
+    c.cov["liveness"] = ["MC_Pe!LiveSpec |= Terminates"]
     lines = layouts(c, "MCInit", tier, "layouts-" + tier) if c.quick else layouts_parallel(c, tier, "layouts-" + tier)
     res, deaths, items, st = execute(c, lines, "boundary" if c.quick else "all-sampled", 0)
     report(c, res, deaths, items)
